@@ -100,12 +100,13 @@ type HStep struct {
 	Rename uint64  `json:"rename,omitempty"`      // with Acts: rename one label IN PLACE in the slice passed by an earlier fix-up and pass that same slice again (as demo/Demo.go does with NAMES)
 	BadKey *string `json:"bad_key,omitempty"`     // a malformed query whose panic is recovered
 	Why    string  `json:"why,omitempty"`
-	Quiet  bool    `json:"quiet,omitempty"` // no query of any kind between this step and the next one (fix-ups applied back to back)
+	Forgot uint64  `json:"forgot,omitempty"` // non-zero: a record is added whose label the caller forgot to pass (index one past the names in use); a working-day walk over it panics and is recovered; then the caller repairs it by passing the extended names
+	Quiet  bool    `json:"quiet,omitempty"`  // no query of any kind between this step and the next one (fix-ups applied back to back)
 }
 
 // Act is one abstract fix-up segment.
 type Act struct {
-	Kind string `json:"kind"` // add_future add_before add_between replace_flag replace_name replace_target remove remove_absent add_block
+	Kind string `json:"kind"` // add_future add_before add_between replace_flag replace_name replace_target remove remove_absent add_block same_day_again
 	Pick uint64 `json:"pick"` // chooses the record / day / name deterministically
 }
 
